@@ -206,4 +206,31 @@ def specPrunableT (r : RctD) : B :=
    else cat (r.rangeSigs.map specRangeSig)) ++
   (if ty ∈ usesClsag then cat (r.clsags.map specClsag) else cat (r.mgs.map specMg)) ++
   (if ty ∈ pseudoOutsInPrunable then cat r.pseudoOuts else [])
+
+/-! Wire content of each NAMED field of the records that Monero serialises field by field (`FIELD(..)` lists of rctTypes.h
+`Bulletproof`, `BulletproofPlus`, `boroSig`, `rangeSig`, cryptonote_basic.h `transaction_prefix`, `block_header`, `block`, crypto.h
+`signature`), for comparison of the field ORDER with the `impl_consensus_encoding!` invocations regenerated from /repo (Props/C03
+`C03_field_orders_are_monero`). Field names are those of the library's public structs (harness `desc.rs` prints every field by name). -/
+def bpField (p : BpD) : String → B
+  | "A" => p.A | "S" => p.S | "T1" => p.T1 | "T2" => p.T2 | "taux" => p.taux | "mu" => p.mu
+  | "L" => varint p.L.length ++ cat p.L | "R" => varint p.R.length ++ cat p.R
+  | "a" => p.a | "b" => p.b | "t" => p.t | _ => []
+def bppField (p : BppD) : String → B
+  | "A" => p.A | "A1" => p.A1 | "B" => p.Bk | "r1" => p.r1 | "s1" => p.s1 | "d1" => p.d1
+  | "L" => varint p.L.length ++ cat p.L | "R" => varint p.R.length ++ cat p.R | _ => []
+def boroSigField (r : RangeSigD) : String → B
+  | "s0" => cat r.s0 | "s1" => cat r.s1 | "ee" => r.ee | _ => []
+def rangeSigField (boroOrder : List String) (r : RangeSigD) : String → B
+  | "asig" => cat (boroOrder.map (boroSigField r)) | "Ci" => cat r.Ci | _ => []
+def sigField (s : B × B) : String → B
+  | "c" => s.1 | "r" => s.2 | _ => []
+def prefixField (d : TxD) : String → B
+  | "version" => varint d.version | "unlock_time" => varint d.unlock
+  | "inputs" => varint d.ins.length ++ cat (d.ins.map specIn) | "outputs" => varint d.outs.length ++ cat (d.outs.map specOut)
+  | "extra" => varint d.extra.length ++ d.extra | _ => []
+def headerField (h : HeaderD) : String → B
+  | "major_version" => varint h.major | "minor_version" => varint h.minor | "timestamp" => varint h.timestamp
+  | "prev_id" => h.prevId | "nonce" => u32le h.nonce | _ => []
+def blockField (b : BlockD) : String → B
+  | "header" => specHeader b.hdr | "miner_tx" => specTx b.miner | "tx_hashes" => varint b.txHashes.length ++ cat b.txHashes | _ => []
 end Spec
